@@ -1,2 +1,122 @@
-(* C16 — property theorems only (under construction) *)
+(* C16 — property theorems only: each closed by [exact], each followed by Print Assumptions.
+   Vocabulary: Model.v (step/run = the updater loop; fs, save_trace, startup = the configuration directory,
+   saveState's operation sequence and dastard's start-up), Spec.v (status_topic, persistent_topic,
+   last_text, last_obj, updated_tags, wf_event, consistent, case_distinct). *)
+From Coq Require Import String.
 From Dastard Require Import Common.ZX C16.Model C16.Spec C16.Proofs.
+
+(* 1. For ALL histories of events (updates over any tags with repeats and unchanged values, SENDALLs,
+      waits, saves with any failure pattern): the set published in answer to a SENDALL issued after the
+      history is exactly { (t, last message of t) | t updated at least once, t a status topic }, one
+      message per topic.  Hypothesis: the text of a message is never empty (it is JSON). *)
+Theorem sendall_is_last_per_topic :
+  forall (cfg : config) (d : fs entry) (h : list event) (l : list (string * string)),
+    Forall wf_event h ->
+    snd (step (fst (run (init_sys cfg d) h)) SendAll) = Published l ->
+    NoDup (map fst l) /\
+    forall t b, In (t, b) l <-> (status_topic t = true /\ last_text t h = Some b).
+Proof. exact sendall_last_per_topic. Qed.
+Print Assumptions sendall_is_last_per_topic.
+
+Example sendall_is_last_per_topic_hypotheses_met :
+  Forall wf_event example_history /\
+  snd (step (fst (run (init_sys [] [(Main, [])]) example_history)) SendAll)
+  = Published [("STATUS", "{""Running"":true,""Nsamples"":2000}"); ("ALIVE", "1"); ("TRIGGER", "[]")]%string.
+Proof. exact (conj example_wf example_answer). Qed.
+
+(* 2. For ALL histories: a save that runs to its end without a failing operation leaves a main file from
+      which the next start-up reads, for every persistent topic updated at least once, the latest value;
+      every key no persistent topic maps to keeps the value it had.  Hypotheses: the rendered object is a
+      function of the message text; no two tags differ only by case (viper keys are case-insensitive). *)
+Theorem saved_is_latest :
+  forall (cfg : config) (d : fs entry) (h : list event) (now : string),
+    Forall wf_event h -> consistent h -> case_distinct h ->
+    let y := fst (run (init_sys cfg d) h) in
+    let y' := fst (step y (SaveTick now [])) in
+    exists saved,
+      snd (startup (disk y')) = Some saved /\
+      (forall t o, persistent_topic t = true -> last_obj t h = Some o ->
+                   slookup (to_lower t) saved = Some o) /\
+      (forall k, (forall t, In t (updated_tags h ++ ["CURRENTTIME"; "___1"; "___2"]%string) ->
+                            to_lower t <> k \/ nosave t = true) ->
+                 slookup k saved = slookup k (all_settings y)).
+Proof. exact saved_latest. Qed.
+Print Assumptions saved_is_latest.
+
+Example saved_is_latest_hypotheses_met :
+  Forall wf_event example_history /\ consistent example_history /\ case_distinct example_history.
+Proof. exact (conj example_wf (conj example_consistent example_case_distinct)). Qed.
+
+(* 3. For EVERY directory with a main file, EVERY content to be written, EVERY way of splitting the write
+      into chunks, EVERY pattern of failing operations and EVERY prefix of the operation sequence of
+      saveState (g ranges over the directory before the save and after each completed operation):
+      start-up on g reads the complete old or the complete new content — the main file is never missing,
+      empty or truncated. *)
+Theorem save_crash_safe :
+  forall (A : Type) (f : fs A) (old : content A) (chunks : list (content A)) (faults : list bool) (g : fs A),
+    read f Main = Some old ->
+    In g (save_trace f chunks faults) ->
+    snd (startup g) = Some old \/ snd (startup g) = Some (concat chunks).
+Proof. exact (@save_crash_safe_one). Qed.
+Print Assumptions save_crash_safe.
+
+Example save_crash_safe_hypotheses_met :
+  read [(Main, [1; 2]); (Bak, [0])] Main = Some [1; 2] /\
+  length (save_trace [(Main, [1; 2]); (Bak, [0])] [[3]; [4]] []) = 7%nat.
+Proof. split; reflexivity. Qed.
+
+(* ... and any number of times: saves cut at any point, restarts, further saves from whatever was left *)
+Theorem save_crash_safe_any_number_of_times :
+  forall (A : Type) (f0 : fs A) (v0 : content A) (f : fs A) (written : list (content A)),
+    read f0 Main = Some v0 ->
+    reachable f0 f written ->
+    exists v, snd (startup f) = Some v /\ read f Main = Some v /\ In v (written ++ [v0]).
+Proof. exact (@save_crash_safe_reachable). Qed.
+Print Assumptions save_crash_safe_any_number_of_times.
+
+(* the save step of the whole system is such a save: every state of its trace reads as the old or as
+   the written configuration *)
+Theorem updater_save_is_crash_safe :
+  forall (y : sys) (now : string) (faults : list bool) tr reads (old : config),
+    snd (step y (SaveTick now faults)) = Saved tr reads ->
+    read (disk y) Main = Some old ->
+    exists written,
+      tr = save_trace (disk y) [written] faults /\
+      written = all_settings (fst (save_state y now faults)) /\
+      forall r, In r reads -> r = Some old \/ r = Some written.
+Proof. exact updater_save_safe. Qed.
+Print Assumptions updater_save_is_crash_safe.
+
+(* start-up never finds the main file missing: it creates an empty one — which is why the old sequence
+   lost the configuration *)
+Theorem save_crash_safe_refuted_pre_fix :
+  exists (f : fs Z) (old : content Z) (chunks : list (content Z)) (faults : list bool) (g : fs Z),
+    read f Main = Some old /\ old <> [] /\
+    nth_error (save_trace_old f chunks faults) 4 = Some g /\
+    read g Main = None /\ snd (startup g) = Some [].
+Proof. exact save_crash_safe_refuted_before_fix. Qed.
+Print Assumptions save_crash_safe_refuted_pre_fix.
+
+(* What the observable checker's "true" means, independent of the model. *)
+Theorem checker_sound :
+  forall pre e o post,
+    C16_check (pre ++ (e, o) :: post) = true ->
+    match e, o with
+    | SendAll, Published l =>
+        NoDup (map fst l) /\
+        forall t b, In (t, b) l <-> (status_topic t = true /\ last_text t (map fst pre) = Some b)
+    | SaveTick _ faults, Saved trace reads =>
+        match written_of trace with
+        | Some w =>
+            (exists old, hd_error reads = Some (Some old) /\
+                         forall r, In r reads -> r = Some old \/ r = Some w) /\
+            (completed faults trace = true ->
+             exists cfg, last reads None = Some cfg /\
+                         forall t ob, persistent_topic t = true -> last_obj t (map fst pre) = Some ob ->
+                                      slookup (to_lower t) cfg = Some ob)
+        | None => True
+        end
+    | _, _ => True
+    end.
+Proof. exact checker_accepts_means. Qed.
+Print Assumptions checker_sound.
